@@ -252,20 +252,12 @@ fn encode_meta(
     Ok(())
 }
 
-fn decode_segment(meta_page: &[u8; PAGE_SIZE], pager: &mut Pager) -> Result<CsrSegment> {
-    if meta_page[0..8] != META_MAGIC {
-        return Err(Error::WalProtocol("invalid csr meta magic"));
-    }
-
-    let id = u64::from_le_bytes(meta_page[8..16].try_into().unwrap());
-    let min_src = u32::from_le_bytes(meta_page[16..20].try_into().unwrap());
-    let max_src = u32::from_le_bytes(meta_page[20..24].try_into().unwrap());
-    let min_dst = u32::from_le_bytes(meta_page[24..28].try_into().unwrap());
-    let max_dst = u32::from_le_bytes(meta_page[28..32].try_into().unwrap());
-    let offsets_len = u64::from_le_bytes(meta_page[32..40].try_into().unwrap()) as usize;
-    let edges_len = u64::from_le_bytes(meta_page[40..48].try_into().unwrap()) as usize;
-    let in_offsets_len = u64::from_le_bytes(meta_page[48..56].try_into().unwrap()) as usize;
-    let in_edges_len = u64::from_le_bytes(meta_page[56..64].try_into().unwrap()) as usize;
+/// Page ids of the four blob page lists (offsets, edges, reverse offsets, reverse edges) recorded
+/// in a segment meta page. Single owner of the list layout: `decode_segment` and vacuum both use it.
+#[allow(clippy::type_complexity)]
+fn decode_page_lists(
+    meta_page: &[u8; PAGE_SIZE],
+) -> Result<(Vec<u64>, Vec<u64>, Vec<u64>, Vec<u64>)> {
     let offsets_page_count = u32::from_le_bytes(meta_page[64..68].try_into().unwrap()) as usize;
     let edges_page_count = u32::from_le_bytes(meta_page[68..72].try_into().unwrap()) as usize;
     let in_offsets_page_count = u32::from_le_bytes(meta_page[72..76].try_into().unwrap()) as usize;
@@ -306,6 +298,39 @@ fn decode_segment(meta_page: &[u8; PAGE_SIZE], pager: &mut Pager) -> Result<CsrS
         ));
         offset += 8;
     }
+
+    Ok((offsets_pages, edges_pages, in_offsets_pages, in_edges_pages))
+}
+
+/// Every data page a persisted segment owns (forward and reverse index), for reachability marking.
+pub(crate) fn segment_data_page_ids(meta_page: &[u8; PAGE_SIZE]) -> Result<Vec<u64>> {
+    if meta_page[0..8] != META_MAGIC {
+        return Err(Error::WalProtocol("invalid csr meta magic"));
+    }
+    let (offsets_pages, edges_pages, in_offsets_pages, in_edges_pages) =
+        decode_page_lists(meta_page)?;
+    let mut out = offsets_pages;
+    out.extend(edges_pages);
+    out.extend(in_offsets_pages);
+    out.extend(in_edges_pages);
+    Ok(out)
+}
+
+fn decode_segment(meta_page: &[u8; PAGE_SIZE], pager: &mut Pager) -> Result<CsrSegment> {
+    if meta_page[0..8] != META_MAGIC {
+        return Err(Error::WalProtocol("invalid csr meta magic"));
+    }
+
+    let id = u64::from_le_bytes(meta_page[8..16].try_into().unwrap());
+    let min_src = u32::from_le_bytes(meta_page[16..20].try_into().unwrap());
+    let max_src = u32::from_le_bytes(meta_page[20..24].try_into().unwrap());
+    let min_dst = u32::from_le_bytes(meta_page[24..28].try_into().unwrap());
+    let max_dst = u32::from_le_bytes(meta_page[28..32].try_into().unwrap());
+    let offsets_len = u64::from_le_bytes(meta_page[32..40].try_into().unwrap()) as usize;
+    let edges_len = u64::from_le_bytes(meta_page[40..48].try_into().unwrap()) as usize;
+    let in_offsets_len = u64::from_le_bytes(meta_page[48..56].try_into().unwrap()) as usize;
+    let in_edges_len = u64::from_le_bytes(meta_page[56..64].try_into().unwrap()) as usize;
+    let (offsets_pages, edges_pages, in_offsets_pages, in_edges_pages) = decode_page_lists(meta_page)?;
 
     let offsets_bytes = read_blob_pages(pager, &offsets_pages)?;
     let edges_bytes = read_blob_pages(pager, &edges_pages)?;
